@@ -68,7 +68,7 @@ fn write_case(dir: &Path, cfg: &ChainCfg, blocks: &[BlockView], async_mode: bool
 }
 
 fn run_child(dir: &Path, crash_at: Option<u64>, log: Option<&Path>) -> Option<i32> {
-    let exe = std::env::current_exe().unwrap();
+    let exe = crate::self_exe();
     let mut c = Command::new(exe);
     c.arg("C08-child").arg(dir);
     c.env_remove("VERIF_CRASH_AT").env_remove("VERIF_CRASH_LOG");
